@@ -94,8 +94,14 @@ def _check_states(args):
     for hist in hists:
         world, _ = build(drv, hist)
         hops = [drv.ops[j] for j in hist]
-        res.append((hist, drv.check_state(world, hops),
-                    drv.state_stats(world)))
+        vs = drv.check_state(world, hops)
+        try:
+            st = drv.state_stats(world)
+        except BaseException as e:   # statistics only, never a verdict
+            if isinstance(e, (KeyboardInterrupt, SystemExit, MemoryError)):
+                raise
+            st = {"state_stats_failed": 1}
+        res.append((hist, vs, st))
     return res
 
 
